@@ -106,7 +106,7 @@ def run(ctx):
                         kind = "builtin" if any(isinstance(x, ast.Call) and isinstance(x.func, ast.Attribute) and
                                                 x.func.attr == "_execute_builtin_action" for s_ in t.body for x in ast.walk(s_)) else "user"
                         handlers.append((kind, h))
-        c.floor("R2", f"containment handlers in {ea.short}", len(handlers), 2)
+        c.expect("R2", f"containment handlers in {ea.short}", len(handlers), 2, ea, f"{ea.short} no longer contains both the user-action call and the built-in action call in a total handler: an exception from an action escapes the action list")
         for kind, h in handlers:
             notifies = any(isinstance(x, ast.Call) and isinstance(x.func, ast.Attribute) and x.func.attr == "on_action_error"
                            for s_ in h.body for x in ast.walk(s_))
